@@ -328,6 +328,13 @@ SubEntriesA == {Ent("LLUDP", "ObjectUpdate", <<>>, <<Blk("ObjectData", <<OUData(
                \cup {Ent("LLUDP", "ObjectUpdate", <<>>, <<Blk("ObjectData", <<OUData(Vc3, Vc3, Vc3, Vc3)>>),
                                                           Blk("ObjectData", <<OUData(Vc3, vv, ac, Vc3)>>)>>) :   \* a later block instance
                     vv \in {Vc0, Vc3}, ac \in {Vc1, Vc3}}
+\* a field that has a subfield serializer but does not unpack to named subfields (TextureEntry): nothing to select
+SubEntriesTE == {Ent("LLUDP", "ObjectUpdate", <<>>, <<Blk("ObjectData", <<OUData(Vc3, vv, Vc3, Vc3), SubVar("TextureEntry", <<>>)>>)>>) :
+                    vv \in {Vc0, Vc3}}
+SubAtomsTE == {Atom(<<"ObjectUpdate", "ObjectData", "TextureEntry", g>>, c[1], c[2]) :
+                    g \in {G_star, N_Velocity}, c \in {<<"", NoLit>>, <<"==", Vc0>>, <<"&", IntV(1)>>}}
+              \cup {Atom(<<"ObjectUpdate", "ObjectData", "*", g>>, c[1], c[2]) :
+                    g \in {G_star, N_Velocity, G_c}, c \in {<<"", NoLit>>, <<"==", Vc0>>, <<"&", IntV(1)>>}}
 SubSelA(g) == <<"ObjectUpdate", "ObjectData", "ObjectData", g>>
 SubPatsA == {N_Position, N_Velocity, N_AngularVelocity, N_Rotation, G_starVelocity, G_c, G_Astar, G_star, G_x}
 SubCmpsA == {<<"==", Vc0>>, <<"!=", Vc0>>, <<"<", VecV(<<2, 2, 2>>)>>, <<">=", Vc1>>, <<"==", Vc3>>, <<"&", IntV(1)>>, <<"==", IntV(1)>>}
@@ -476,6 +483,7 @@ AtomProbes == {p \in {<<"atom", a, e>> : a \in CmpAtoms, e \in CmpEntries} : Ato
               \cup {<<"atom", a, e>> : a \in SelAtoms, e \in SelEntries}
               \cup {p \in {<<"atom", a, e>> : a \in SubAtomsA, e \in SubEntriesA} : AtomDomainOK(p[2], p[3])}
               \cup {p \in {<<"atom", a, e>> : a \in SubAtomsB, e \in SubEntriesB} : AtomDomainOK(p[2], p[3])}
+              \cup {<<"atom", a, e>> : a \in SubAtomsTE, e \in SubEntriesTE}
 TokProbes == {<<"toks", ts>> : ts \in TokStrings(TokLen)}
 CONSTANT ProbeKinds
 InitProbe == /\ arr = <<>> /\ raw = <<>> /\ view = <<>> /\ flt = AllFilter /\ paused = FALSE /\ ret = {}
